@@ -2,5 +2,5 @@ SPECIFICATION Spec
 CONSTANTS MaxLen = 4
 Alphabet <- Alpha11
 Kinds <- KindsAll
-INVARIANTS DesignOK DesignIdem CodecOK ReflexiveOK
+INVARIANTS DesignOK DesignIdem CodecOK ReflexiveOK AsIsOKOutsideKnown
 CHECK_DEADLOCK FALSE
